@@ -363,6 +363,8 @@ RULE_TEXT = {
     "R-REG.divzero": "R-REG (C19 view): generating B-splines from every knot sequence (all multiplicity patterns up to the "
                      "length bound, orders 0..3) never divides by a value that is exactly zero - an exact field type has "
                      "no infinity, so the zero-width guards must precede the division",
+    "R-REG.gen": "R-REG (C01 view): for every knot multiplicity pattern the generator returns m-p-1 valid splines, the "
+                 "i-th supported exactly on the knot span [t_i, t_{i+p+1}], identical for both construction routes",
     "R-REG.const": "constant propagation through faculty / facultyRatio / binomialCoefficient for arguments 0..9 equals "
                    "n!, a!/b!, C(n,k)",
 }
